@@ -4,6 +4,7 @@
    allocator oracle: all single faults, all double faults, all other patterns. *)
 From JC Require Import Base BaseLemmas Value PbModel SerModel AllocModel.
 From JC Require PbProofs AlModel AlProofs LhModel LhProofs StrModel StrProofs.
+From JC Require Properties_C19 Properties_C07 Properties_C06 Properties_C11.
 From Coq Require Import Permutation Arith.
 Local Open Scope Z_scope.
 
@@ -747,6 +748,9 @@ Proof. destruct v; try apply ser_ops_text. reflexivity. Qed.
 End SerTie.
 
 (* ------------------------------------------------------------------ the existing developments in the uniform shape *)
+(* Each restatement goes through the published statement of the owning property file
+   (Properties_C19 / C07 / C06 / C11), so that it follows those developments. *)
+
 (* C19 print buffer: every operation, every allocator behaviour *)
 Definition pb_out (r : pres) : outcome pbuf Z :=
   match r with POk p ret _ => Done p ret | PErr p _ => Refused p | PUB => Undefined end.
@@ -757,7 +761,7 @@ Theorem pb_fault_clean al p o :
     (fun p' _ => PbProofs.Inv p' /\ PbProofs.pb_abs p' = PbModel.spec_step (PbProofs.pb_abs p) o)
     (pb_out (pb_step al p o)).
 Proof.
-  intros HI Hwf. pose proof (PbProofs.step_spec al p o HI Hwf) as S.
+  intros HI Hwf. pose proof (Properties_C19.C19_step_refines al p o HI Hwf) as S.
   destruct (pb_step al p o) as [p' r ws|p' e|]; cbn [pb_out op_fault_clean]; [tauto| |exact S].
   destruct S as [-> _]. reflexivity.
 Qed.
@@ -778,7 +782,7 @@ Theorem al_fault_clean al a o :
                    rel = snd (AlModel.spec_step (AlProofs.al_abs a) o))
     (al_out (AlModel.al_step al a o)).
 Proof.
-  intros HI Hwf. pose proof (AlProofs.step_spec al a o HI Hwf) as S.
+  intros HI Hwf. pose proof (Properties_C07.C07_step_refines al a o HI Hwf) as S.
   destruct (AlModel.al_step al a o) as [a' r rel ws|a'|]; cbn [al_out op_fault_clean]; [tauto| |exact S].
   symmetry. exact S.
 Qed.
@@ -798,13 +802,15 @@ Theorem lh_fault_clean (key val : Type) (keq : key -> key -> bool) (hash : key -
     (lh_out t (LhModel.obj_add_ex keq hash al fail1 t k v is_new cst)).
 Proof.
   intros Hkeq al fail1 t k v is_new cst HI Hpre.
-  pose proof (@LhProofs.insert_refines key val keq hash Hkeq al fail1 t k v is_new cst HI Hpre) as S.
+  pose proof (Properties_C06.C06_insert_refines key val keq hash Hkeq al fail1 t k v is_new cst HI Hpre) as S.
   destruct (LhModel.obj_add_ex keq hash al fail1 t k v is_new cst) as [t'| |why];
     cbn [lh_out op_fault_clean]; [exact S|reflexivity|exact S].
 Qed.
 
-(* C11 string node: set_string / set_string_len; a refused set returns 0 and keeps the
-   contents, the storage and the malloc/free log (only the request counter moves) *)
+(* C11 string node: set_string / set_string_len from any source the caller contract allows
+   (outside the node, or the node's own buffer); a refused set returns 0 and keeps the
+   contents, the storage and the malloc/free log (only the request counter moves).
+   [bs0] = the contents at the call. *)
 Definition str_out (r : StrModel.sres) : outcome StrModel.st (list StrModel.wr) :=
   match r with
   | StrModel.SOk s 0 _ => Refused s
@@ -813,16 +819,19 @@ Definition str_out (r : StrModel.sres) : outcome StrModel.st (list StrModel.wr) 
   end.
 
 Theorem str_fault_clean al s bs0 o :
-  StrProofs.InvC s bs0 -> StrProofs.op_wf o ->
+  StrProofs.InvC s bs0 -> StrProofs.op_wf bs0 o ->
   op_fault_clean (fun s s' => StrProofs.same_store s s' /\ StrProofs.InvC s' bs0) s
-    (fun s' ws => StrProofs.InvC s' (StrModel.op_bytes o) /\ Forall (StrProofs.wr_ok (StrModel.hp s')) ws)
+    (fun s' ws => StrProofs.InvC s' (StrModel.op_bytes bs0 o) /\ Forall (StrProofs.wr_ok (StrModel.hp s')) ws)
     (str_out (StrModel.str_step al s o)).
 Proof.
-  intros HI Hwf. pose proof (StrProofs.step_spec al s bs0 o HI Hwf) as S. unfold StrProofs.step_post in S.
+  intros HI Hwf. pose proof (Properties_C11.C11_step al s bs0 o HI Hwf) as S.
+  pose proof (Properties_C11.C11_failed_set_keeps al s bs0 o) as K.
+  unfold StrProofs.step_post in S.
   destruct (StrModel.str_step al s o) as [s' ret ws|]; [|exact S].
-  destruct S as [(-> & Hc & _ & _ & Hws & _)|(-> & _ & Hss & _)]; cbn [str_out op_fault_clean].
-  - split; assumption.
-  - split; [exact Hss|]. eapply StrProofs.same_store_inv; eassumption.
+  destruct S as [S|S].
+  - assert (ret = 1) as -> by tauto. cbn [str_out op_fault_clean]. tauto.
+  - assert (ret = 0) as -> by tauto. cbn [str_out op_fault_clean].
+    specialize (K s' ws HI Hwf eq_refl). tauto.
 Qed.
 
 (* C11 string constructor: one allocation; NULL leaves nothing behind *)
@@ -836,7 +845,7 @@ Theorem str_new_fault_clean al src len :
                 StrModel.elog s = [StrModel.EvMalloc 0 (StrProofs.objsize_of len)])
     (strnew_out (StrModel.new_string_len al src len)).
 Proof.
-  intros Hr Hs. pose proof (StrProofs.new_len_spec al src len Hr Hs) as S.
+  intros Hr Hs. pose proof (Properties_C11.C11_new_len_holds al src len Hr Hs) as S.
   destruct (StrModel.new_string_len al src len); cbn [strnew_out op_fault_clean]; [tauto|reflexivity|exact S].
 Qed.
 
